@@ -229,10 +229,11 @@ def unleak():
     return held
 
 
-def fork_run(ctx, n_proc, names, delay, src):
-    """forked worker processes on one aggregator created in the parent; claim writes delayed to widen the race"""
+def fork_run(ctx, n_proc, names, delay, src, continue_file=True):
+    """forked worker processes on one aggregator created in the parent; claim writes delayed to widen the race.
+    continue_file=False: the constructor does not look at an existing file (and so need not touch the locks before the workers are forked)"""
     import multiprocessing as mp
-    inp = {"mode": "fork", "names": names, "delay": delay, "src": src}
+    inp = {"mode": "fork", "names": names, "delay": delay, "src": src, "continue_file": continue_file}
     if _BLOCKED:
         ctx.count("process_runs_skipped_after_blocking")
         return
@@ -247,7 +248,8 @@ def fork_run(ctx, n_proc, names, delay, src):
     try:
         impl.serial_pool(True)
         with quiet():
-            agg = PA.Panoptica_Aggregator(mk_evaluator(), os.path.join(d, "out.tsv"))
+            agg = (PA.Panoptica_Aggregator(mk_evaluator(), os.path.join(d, "out.tsv")) if continue_file else
+                   PA.Panoptica_Aggregator(mk_evaluator(), os.path.join(d, "out.tsv"), continue_file=False))
         uniq = sorted(set(names))
         code = {n: uniq.index(n) + 1 for n in uniq}
         cx = mp.get_context("fork")
@@ -653,6 +655,9 @@ def run(ctx):
         # the model's worker processes inherit the two module locks (fork); any other start method gives every worker its own pair
         ctx.disagree("worker processes inherit the module-level locks (start method fork on posix)", {"start_method": _mp.get_start_method(allow_none=True)},
                      _mp.get_start_method(allow_none=True), "fork")
+    # before anything in this process has used the module's two locks: forked workers on an aggregator constructed with continue_file=False
+    for k in range(ctx.scale(2, 6)):
+        fork_run(ctx, 4, ["dup", "dup", "dup", "solo_a"], 0.3, f"fork.first{k}", continue_file=False)
     # all interleavings of the first three actions of two colliding threads, then run to completion
     for sched in sorted(set(itertools.permutations([0, 0, 0, 1, 1, 1]))):
         one_schedule(ctx, ["dup", "dup"], ["eval", "eval"], list(sched), "exh3x3")
@@ -706,6 +711,6 @@ def replay(ctx, rec):
         pool_run(ctx, len(set(i["names"])), len(i["names"]) // len(set(i["names"])), "replay")
         return
     if i.get("mode") == "fork":
-        fork_run(ctx, len(i["names"]), i["names"], i["delay"], "replay")
+        fork_run(ctx, len(i["names"]), i["names"], i["delay"], "replay", continue_file=i.get("continue_file", True))
     else:
         one_schedule(ctx, i["names"], i["kinds"], i["schedule"], "replay", old=i.get("old", []))
